@@ -21,13 +21,14 @@ ID = "C19"
 LEVEL = "exploration"
 RULE = (
     "One case = one root-finding dialogue against a tape-driven adversarial function (strategies: smooth monotone, smooth "
-    "multi-root, step, random sign, keep-larger-subinterval adaptive; magnitudes: function value, log-uniform 1e-200..1e200, "
+    "multi-root, step, random sign, keep-larger-subinterval adaptive, real functions with late steep crossings (kinked ramps, odd "
+    "powers, cliffs, flat-then-steep), one-step lookahead on a copy of the finder (goals: overshoot the bracket, hug a bracket end, keep the bracket wide); magnitudes: function value, log-uniform 1e-200..1e200, "
     "epsilon-straddling, exact zeros; epsilon in {1e-12,1e-6,1e-3,1,10}; tolerance from 4 ulp to the bracket width; brackets "
     "with start=0, negative, huge and tiny abscissas). Non-trivial iff >= 3 evaluations were needed; distinct by (epsilon, "
     "sign strategy, magnitude strategy, hash of the bisection/interpolation decision sequence)."
 )
 COMPONENTS = {"real": ["emu_base.math.brents_root_finding.BrentsRootFinder", "find_root_brents"], "stubbed": ["the function being searched (the adversary)"]}
-PROBES = ["interpolation_step_taken", "bisection_forced_after_interpolation", "exact_zero_answered", "bracket_already_below_tolerance", "endpoint_swap_at_construction", "solver_configuration_eps1_tol1", "more_than_2N_evaluations", "abscissa_equals_endpoint"]
+PROBES = ["interpolation_step_taken", "bisection_forced_after_interpolation", "exact_zero_answered", "bracket_already_below_tolerance", "endpoint_swap_at_construction", "solver_configuration_eps1_tol1", "more_than_2N_evaluations", "abscissa_equals_endpoint", "real_function_shapes", "lookahead_adversary"]
 ASSUMPTIONS = [
     "tolerance >= 4 ulp of the larger bracket end (below one ulp no bracketing method can converge)",
     "the environment is a function: the same abscissa always gets the same ordinate (the inconsistent case belongs to C18)",
@@ -36,7 +37,9 @@ ASSUMPTIONS = [
 
 LOGMAG = float(__import__("os").environ.get("EMUSIM_C19_LOGMAG", "200"))
 ZEROS = __import__("os").environ.get("EMUSIM_C19_ZEROS", "1") == "1"
-SIGN_STRATS = ["hidden_root", "multi_root", "random_sign", "keep_larger", "keep_smaller_then_larger"]
+SIGN_STRATS = ["hidden_root", "multi_root", "random_sign", "keep_larger", "keep_smaller_then_larger", "function", "lookahead"]
+FUNCTION_SHAPES = ["kinked", "kinked2", "power", "cliff", "flat_then_steep"]
+LOOKAHEAD_GOALS = ["overshoot", "stall", "edge"]
 MAG_STRATS = ["smooth", "loguniform", "near_epsilon", "const", "tiny_at_b"]
 
 
@@ -70,6 +73,99 @@ class Adversary:
         self.scale = 10.0 ** tape.int(-6, 6, "scale")
         self.zero_p = tape.choice([0.0, 0.0, 0.02, 0.2], "zero_p") if ZEROS else 0.0
         self.n = 0
+        self.start, self.end, self.tol = start, end, None
+        self.fn = None
+        self.goal = None
+        if sign == "function":
+            self._build_function(fs, fe)
+        if sign == "lookahead":
+            self.goal = tape.choice(LOOKAHEAD_GOALS, "goal")
+            self.rel = [10.0 ** e for e in (-12, -6, -3, -2, -1)] + [0.3, 0.5, 0.9, 1.0, 1.1, 2.0, 10.0, 1e3, 1e6]
+
+    # ---- a real (continuous or piecewise continuous) function through (start, fs) and (end, fe) ------------------
+    def _build_function(self, fs: float, fe: float) -> None:
+        tp = self.tape
+        shape = tp.choice(FUNCTION_SHAPES, "fn_shape")
+        a, b = self.start, self.end
+        w = b - a
+        mirror = tp.bool(0.5, "fn_mirror")  # put the feature near the start instead of near the end
+        q = tp.choice([0.5, 0.7, 0.9, 0.95, 0.99, 0.999], "fn_kink")
+        r = 10.0 ** (-tp.int(0, 6, "fn_small"))  # |f| just before the steep part, relative to |fs|
+        q2 = tp.float(0.05, 0.95, "fn_kink2")
+        k = tp.choice([3, 5, 9, 21, 51], "fn_power")
+
+        def unit(u: float) -> float:
+            """monotone map [0,1] -> [-1, +big]: negative on most of the interval, crossing late"""
+            if shape == "kinked":
+                return (-1.0 + (1.0 - r) * u / q) if u <= q else (-r + (u - q) / (1.0 - q) * (r + 1.0))
+            if shape == "kinked2":
+                qa = q * q2
+                if u <= qa:
+                    return -1.0 + 0.5 * u / qa
+                if u <= q:
+                    return -0.5 + (0.5 - r) * (u - qa) / (q - qa)
+                return -r + (u - q) / (1.0 - q) * (r + 1.0)
+            if shape == "power":
+                return math.copysign(abs((u - q) / max(q, 1.0 - q)) ** k, u - q)
+            if shape == "cliff":
+                return -1.0 if u < q else 1.0
+            # flat_then_steep: exponentially small slope, then a wall
+            return -r * (1.0 - u) - (1.0 - r) * math.exp(-40.0 * u) + (math.exp(60.0 * (u - q)) - math.exp(-60.0 * q)) * (u > q)
+
+        ya, yb = unit(0.0), unit(1.0)
+        if not (ya < 0.0 < yb):
+            shape, q = "kinked", 0.9
+            ya, yb = unit(0.0), unit(1.0)
+
+        def fn(x: float) -> float:
+            u = (x - a) / w
+            if mirror:
+                v = -unit(1.0 - u)  # point reflection: the steep crossing sits near the start, v(0) < 0 < v(1) still
+                lo_, hi_ = -yb, -ya
+            else:
+                v = unit(u)
+                lo_, hi_ = ya, yb
+            # scale the negative part to fs and the positive part to fe (keeps the function continuous at its root)
+            if fs < 0:
+                return v / abs(lo_) * abs(fs) if v < 0 else v / abs(hi_) * abs(fe)
+            return -(v / abs(lo_) * abs(fs)) if v < 0 else -(v / abs(hi_) * abs(fe))
+
+        self.fn = fn
+        self.fn_desc = {"shape": shape, "mirror": mirror, "kink": q, "small": r, "power": k}
+
+    # ---- one-step lookahead on a copy of the finder: the environment answers whatever hurts most ------------------
+    def _lookahead(self, x: float, rf: Any) -> float:
+        import copy
+
+        w = self.end - self.start
+        ref = max(min(abs(self.flo), abs(self.fhi)), 1e-300)
+        big = max(abs(self.flo), abs(self.fhi))
+        cands = [sg * m * rr for sg in (1.0, -1.0) for m in (ref, big) for rr in self.rel]
+        cands.append(self.tape.choice([1.0, -1.0], "la_sgn") * 10.0 ** self.tape.float(-30.0, 30.0, "la_mag"))
+        best, best_score = None, None
+        for y in cands:
+            if not math.isfinite(y) or y == 0.0:
+                continue
+            try:
+                c = copy.deepcopy(rf)
+                c.provide_ordinate(x, y)
+                if self.tol is not None and c.is_converged(self.tol):
+                    score = -1e9  # ends the game
+                else:
+                    x2 = c.get_next_abscissa()
+                    if self.goal == "overshoot":
+                        score = max(self.start - x2, x2 - self.end) / w
+                    elif self.goal == "edge":
+                        score = -min(abs(x2 - getattr(c, "a", self.lo)), abs(x2 - getattr(c, "b", self.hi))) / w
+                    else:  # stall: keep the bracket as wide as possible
+                        score = abs(getattr(c, "a", self.lo) - getattr(c, "b", self.hi)) / w
+                    if math.isnan(x2):
+                        score = 1e9
+            except Exception:
+                score = 1e9  # an exception is what we are looking for
+            if best_score is None or score > best_score:
+                best, best_score = y, score
+        return best if best is not None else self.scale
 
     def _sign(self, x: float) -> float:
         s0 = 1.0 if self.fhi > 0 else -1.0  # sign at the upper end of the original bracket
@@ -108,12 +204,18 @@ class Adversary:
         # tiny_at_b: make the most recent point look like an excellent guess
         return self.scale * 10.0 ** (-self.tape.int(0, 30, "tiny"))
 
-    def f(self, x: float) -> float:
+    def f(self, x: float, rf: Any = None) -> float:
         if x in self.memo:
             return self.memo[x]
         self.n += 1
-        s = self._sign(x)
-        y = s * self._mag(x, s)
+        if self.sign == "function" and self.fn is not None:
+            y = self.fn(x)
+        elif self.sign == "lookahead" and rf is not None:
+            y = self._lookahead(x, rf)
+        else:
+            s = self._sign(x)
+            y = s * self._mag(x, s)
+        s = 1.0 if y >= 0 else -1.0
         if math.isnan(y) or math.isinf(y):
             y = s * 1.0
         self.memo[x] = y
@@ -175,11 +277,18 @@ def dialogue(tape: Tape) -> dict:
     sign = tape.choice(SIGN_STRATS, "sign_strat")
     mag = tape.choice(MAG_STRATS, "mag_strat")
     adv = Adversary(tape, start, end, fs, fe, eps, sign, mag)
+    adv.tol = tol
     N = max(1, math.ceil(math.log2(max(width / tol, 2.0))))
     budget = 2 * (N + 2) ** 2 + 10
     viol: list[dict] = []
     probes: dict[str, int] = {}
     desc = {"start": start, "end": end, "f_start": fs, "f_end": fe, "epsilon": eps, "tolerance": tol, "sign": sign, "mag": mag, "N": N, "budget": budget}
+    if sign == "function":
+        desc["function"] = adv.fn_desc
+        probes["real_function_shapes"] = 1
+    if sign == "lookahead":
+        desc["goal"] = adv.goal
+        probes["lookahead_adversary"] = 1
 
     def V(clause: str, site: str, msg: str) -> None:
         viol.append({"clause": clause, "site": site, "msg": msg + f" :: dialogue={desc} queries={[(x, adv.memo[x]) for x in adv.order[:12]]}"})
@@ -209,7 +318,7 @@ def dialogue(tape: Tape) -> dict:
                 break
             if x == start or x == end:
                 probes["abscissa_equals_endpoint"] = 1
-            y = adv.f(x)
+            y = adv.f(x, rf)
             if y == 0.0:
                 probes["exact_zero_answered"] = 1
             rf.provide_ordinate(x, y)
